@@ -176,17 +176,28 @@ def _layout_job(d):
             continue
         a0, s0 = _verdict(sql, d, L, P, earley)          # history: the statement itself first
         n += 1
+        hist = [sql]
         if a0 and not s0:
-            bad.append((sql, sql, 'accepted but not a sentence'))
+            bad.append(([sql], sql, 'accepted but not a sentence'))
         gaps = [(toks[i].end, toks[i + 1].index) for i in range(len(toks) - 1) if sql[toks[i].end:toks[i + 1].index] == ' '][:14]
         for lo, hi in gaps:
             for filler in ('\n', ' -- c\n', ' -- c '):
                 var = sql[:lo] + filler + sql[hi:]
                 a, s_ = _verdict(var, d, L, P, earley)
                 n += 1
+                hist.append(var)
                 if a and not s_:
-                    bad.append((sql, var, 'accepted after the statement it is a layout variant of, but its own token stream is not a sentence'))
+                    bad.append((list(hist), var, 'accepted after the statement it is a layout variant of (and earlier variants), but its own token stream is not a sentence'))
     return d, n, bad
+
+
+def replay_history(hist, d):
+    """the same calls, in the same order, in a fresh interpreter: is the last text accepted?"""
+    import subprocess, sys as _sys
+    code = ("import sys, warnings; warnings.filterwarnings('ignore')\nfrom mindsdb_sql import parse_sql\n"
+            "for q in %r:\n    try:\n        parse_sql(q, %r); r = 'accepted'\n    except Exception as e:\n        r = 'rejected'\nprint('LAST', r)\n") % (list(hist), d)
+    o = subprocess.run([_sys.executable, '-c', code], capture_output=True, text=True, timeout=120)
+    return 'LAST accepted' in o.stdout
 
 
 def layout_history(run, tier):
@@ -195,15 +206,10 @@ def layout_history(run, tier):
         res = pool.map(_layout_job, list(SW.DIALECTS))
     for d, n, bad in res:
         run.validated += n
-        for first, var, why in bad[:3]:
-            # replay = the same two calls in a fresh interpreter
-            import subprocess, sys as _sys
-            code = ("import sys, warnings; warnings.filterwarnings('ignore')\nfrom mindsdb_sql import parse_sql\n"
-                    "for q in (%r, %r):\n    try:\n        parse_sql(q, %r); r = 'accepted'\n    except Exception as e:\n        r = 'rejected'\nprint('LAST', r)\n") % (first, var, d)
-            o = subprocess.run([_sys.executable, '-c', code], capture_output=True, text=True, timeout=120)
-            rep = 'LAST accepted' in o.stdout
-            run.counterexample('accept-after-history:%s:%s' % (d, ' '.join(var.split())[:80]), '%s: parse_sql(%r) after parse_sql(%r): %s' % (d, var, first, why),
-                               {'history': [first, var], 'dialect': d}, rep)
+        for hist, var, why in bad[:3]:
+            rep = replay_history(hist, d)
+            run.counterexample('accept-after-history:%s:%s' % (d, ' '.join(var.split())[:80]), '%s: parse_sql(%r) after parse_sql of %r: %s' % (d, var, hist[:-1][-3:], why),
+                               {'history': hist, 'dialect': d}, rep)
         run.ob('layout-after-history:%s' % d, 'counterexample' if bad else 'discharged', '%d texts (statement, then its layout variants)' % n)
 
 
@@ -229,6 +235,10 @@ def handle(run, name, res):
 def replay(path):
     r = json.load(open(path))
     print(json.dumps(r, indent=1))
+    if r['replay'].get('history'):
+        rep = replay_history(r['replay']['history'], r['replay']['dialect'])
+        print('native replay now (same calls in a fresh interpreter): last text accepted=%s' % rep)
+        return 1 if rep else 0
     f = r['replay'].get('finding')
     if f:
         rep, info = replay_finding(f)
